@@ -81,7 +81,7 @@ fn walk_into(img: &[u8], from: usize, to: usize, depth: usize, parent: Option<us
         } else {
             (8usize, s32)
         };
-        if size < hdr || off + size > to {
+        if size < hdr || off.checked_add(size).map_or(true, |e| e > to) {
             break;
         }
         let path = if ppath.is_empty() { tname(&typ) } else { format!("{ppath}/{}", tname(&typ)) };
